@@ -166,7 +166,9 @@ class Verifier:
         try:
             for combo in combos:
                 case = dict(zip(names, combo))
-                if c.stmt:
+                if c.block:
+                    r = self._verify_block(c, fdef, consts, case, ob)
+                elif c.stmt:
                     r = self._verify_stmt(c, fdef, consts, case, ob)
                 else:
                     r = self._verify_case(c, fdef, consts, case, ob)
@@ -279,6 +281,86 @@ class Verifier:
                 hyps = pst.hyps() + est.facts[len(pst.facts):]
                 for lab2, h2, f2 in est.checks:
                     pass
+                self._discharge(o, hyps, g, inputs, f'{label} [{case_tag}]', c, case)
+        return (True, normal)
+
+    def _verify_block(self, c, fdef, consts, case, ob):
+        """Block contract: the statements of the real function from the first assignment of
+        c.block[0] to the last assignment of c.block[1] (same statement list), executed from a
+        state whose free variables are typed by c.params; ensures speak about the final values
+        (plain names) and the initial ones (old_<name>)."""
+        first, last = c.block
+
+        def assigns(stmt, name):
+            tg = []
+            if isinstance(stmt, ast.Assign):
+                tg = stmt.targets
+            elif isinstance(stmt, (ast.AugAssign, ast.AnnAssign)):
+                tg = [stmt.target]
+            return any(isinstance(x, ast.Name) and x.id == name for t in tg for x in ast.walk(t))
+        found = None
+        for n in ast.walk(fdef):
+            for fld in ('body', 'orelse', 'finalbody'):
+                lst = getattr(n, fld, None)
+                if not isinstance(lst, list):
+                    continue
+                idx = [i for i, s_ in enumerate(lst) if isinstance(s_, ast.stmt)
+                       and assigns(s_, first)]
+                if idx:
+                    lo = idx[0]
+                    his = [i for i in range(lo, len(lst))
+                           if any(assigns(x, last) for x in ast.walk(lst[i])
+                                  if isinstance(x, ast.stmt))]
+                    if his:
+                        found = lst[lo:his[-1] + 1]
+                        break
+            if found:
+                break
+        if not found:
+            raise Unsupported(f'block {first}..{last} not found')
+        st = State()
+        ex = Executor(self.reg, consts)
+        ex.cur_class = c.cls
+        ex.loop_specs = c.loops
+        inputs = []
+        for name, spec in c.params.items():
+            v = case[name] if name in case else make_symbolic(spec, name, self.reg, st)
+            st.env[name] = v
+            leaves(name, v, inputs)
+        for r in c.requires:
+            st.assume(ex.eval_cl(r, st))
+        res, _, _ = solve.check(st.hyps(), timeout_s=self.timeout_s)
+        if res != 'sat':
+            return (False, 0)
+        # initial values (arrays: snapshot of the element function) for frame / relation clauses
+        from .values import SArr as _SArr, snap as _snap, snap_finite as _sf
+        olds = {}
+        for k, v in st.env.items():
+            if isinstance(v, _SArr):
+                o = _SArr(v.shape, _snap(v), v.kind)
+                o.finite = _sf(v)
+                olds['old_' + k] = o
+            else:
+                olds['old_' + k] = v
+        normal = 0
+        case_tag = ','.join(f'{k}={v!r}' for k, v in case.items())
+        for pst, oc in ex.exec_block(found, st):
+            for label, hyps, f in pst.checks:
+                o = ob('safety', 'in-body obligations: callee preconditions, index bounds')
+                self._discharge(o, hyps, f, inputs, f'{label} [{case_tag}]', c, case)
+            if oc[0] != 'fall':
+                continue
+            normal += 1
+            for label, text in c.ensures:
+                o = ob(f'ensures:{label}', text)
+                est = State(dict(pst.env))
+                est.env.update(olds)
+                est.facts, est.pc = list(pst.facts), list(pst.pc)
+                gex = Executor(self.reg, consts)
+                gex.goal_mode = True
+                gex.cur_class = c.cls
+                g = gex.eval_cl(text, est)
+                hyps = pst.hyps() + est.facts[len(pst.facts):]
                 self._discharge(o, hyps, g, inputs, f'{label} [{case_tag}]', c, case)
         return (True, normal)
 
